@@ -220,13 +220,13 @@ def kani_cmd(build, harness_ids, target_dir, harness_timeout, extra=()):
     b = BUILDS[build]
     cmd = ["cargo", "kani", "-p", b["package"]] + b["args"] + [
         "--target-dir", target_dir, "-Z", "stubbing", "-Z", "unstable-options",
-        "--harness-timeout", "%ds" % harness_timeout, "--default-unwind", "17"]
+        "--harness-timeout", "%ds" % harness_timeout, "--default-unwind", "17", "--no-assertion-reach-checks"]
     for h in harness_ids:
         cmd += ["--harness", h]
     return cmd + list(extra)
 
 
-CHECK_RE = re.compile(r"^Check (\d+): (\S+)\s*$")
+CHECK_RE = re.compile(r"^Check (\d+): (.+?)\s*$")
 
 
 def parse_kani_log(text):
@@ -250,7 +250,7 @@ def parse_kani_log(text):
             if cur is not None and s.startswith("- Status:"):
                 cur["status"] = s.split(":", 1)[1].strip()
             elif cur is not None and s.startswith("- Description:"):
-                cur["desc"] = s.split(":", 1)[1].strip().strip('"')
+                cur["desc"] = s.split(":", 1)[1].strip().strip('"').strip()
             elif cur is not None and s.startswith("- Location:"):
                 cur["loc"] = s.split(":", 1)[1].strip()
                 is_cover = ".cover." in cur["name"]
@@ -258,6 +258,8 @@ def parse_kani_log(text):
                     r["covers_total"] += 1
                     if cur["status"] == "SATISFIED":
                         r["covers_sat"] += 1
+                    elif cur["desc"].startswith("info:"):
+                        pass  # informational cover (shape-dependent), not a vacuity witness
                     else:
                         r["covers_unsat"].append(cur)
                 else:
